@@ -82,6 +82,19 @@ CHECKS.update({
              technique=T, ref="6/C15"),
 })
 
+CHECKS.update({
+ "C03": dict(text="MossVis states the visibility rule (a snapshot holds, per writer, exactly the batches pushed before its linearization point; at least those that had returned when the call started); TLC checks it "
+             "on the bounded model and validates recorded traces of free-running concurrent executions (N writers on disjoint keys incl. a child collection, snapshot readers that re-read, Collection.Get readers, "
+             "notifiers, back-pressure, store/app/mem) against TraceVis, with self-tests showing that a corrupted read or a dropped push event is rejected.",
+             technique="TLA+ trace validation (TLC on TraceVis over recorded executions, direction B) + TLC on MossVis", ref="6/C03", engine="mossconc",
+             note="Trusted: TLC + Json (ndJsonDeserialize); hook events are emitted under the collection mutex after the change and numbered from one counter shared with the driver's call/return events; pushes are attributed to writers through the Batch object identity."),
+ "C16": dict(text="MossSync (mutex, condition variables, waitDirtyIncomingCh, bounded ping channel with pongs; writers, merger, persister with failing lower level, notifiers, closer) is checked by TLC for "
+             "TopBounded, deadlock freedom, ClosedIsFinal and, under weak fairness, that every call returns; the counterexample schedules of its named deviations are replayed with gates on the real "
+             "library; free-running runs with a closer, notifiers, slow/failing lower levels and MaxDirtyOps are recorded, watched for calls that do not return, and validated against TraceSync.",
+             technique="TLA+ model checking incl. liveness (TLC on MossSync) + gated replay of counterexample schedules + trace validation (TraceSync)", ref="6/C16", engine="mossconc",
+             note="Trusted: TLC (liveness under weak fairness) + Json; the ping channel capacity is a spec constant (1 or 2) bound to the code's 10 in the gated scenario; a call counts as hanging after 3 s (gated) / 20 s (free-running) with a progressing lower level."),
+})
+
 NA = {
  "C17": "data races are pairs of unsynchronised memory accesses below the grain of any action of a TLA+ specification; deciding them needs a race detector, a different family of technique (DESIGN.md section 7)",
 }
@@ -121,6 +134,8 @@ def main():
              "kind_free_text": "TLC on specs/MossColl.tla (MCColl.tla) + harness/cmd/replay (direction A: TLC behaviours replayed into the gated implementation)"},
             {"name": "mossiter", "path": "bin/check_iter.py", "serves_properties": ["C09"], "kind_free_text": "TLC on specs/MossIter.tla + harness/cmd/iterreplay"},
             {"name": "mossindex", "path": "bin/check_index.py", "serves_properties": ["C14"], "kind_free_text": "TLC on specs/MossIndex.tla + harness/cmd/indexreplay"},
+            {"name": "mossconc", "path": "bin/check_conc.py", "serves_properties": ["C03", "C16"],
+             "kind_free_text": "TLC on specs/MossVis.tla, MossSync.tla, TraceVis.tla, TraceSync.tla + harness/cmd/conc (recorded free-running executions) + harness/cmd/syncscen (gated counterexample schedules)"},
             {"name": "mossstore", "path": "bin/check_store.py", "serves_properties": [p for p in ["C05","C06","C07","C12","C18"] if p in CHECKS],
              "kind_free_text": "TLC on specs/MossStore.tla (MCStore.tla) + harness/cmd/storereplay (rounds forced through Store.Persist options, fault injection and crash-image materialisation through the recorded File)"},
         ],
